@@ -5,8 +5,8 @@ The byte layout of every scenario (N and the item boundaries) is asked from the 
 import os
 import random
 
-SCENARIOS = ["hin", "hout", "seed", "leech", "dis", "pex", "multi", "mblk", "hs3", "full", "fullx", "hfail", "thrd", "thru", "snub", "snub2", "sockfull"]
-SEEDING = {"hin", "seed", "pex", "hs3", "full", "fullx", "hfail", "thru", "snub", "snub2", "sockfull"}
+SCENARIOS = ["hin", "hout", "seed", "leech", "dis", "pex", "multi", "mblk", "hs3", "full", "fullx", "hfail", "thrd", "thru", "snub", "snub2", "sockfull", "ddis", "ddis2", "ddisl"]
+SEEDING = {"hin", "seed", "pex", "hs3", "full", "fullx", "hfail", "thru", "snub", "snub2", "sockfull", "ddis", "ddis2"}
 PEER_FAULTS = "XRH"          # remote close / reset / half close of one peer
 GLOBAL_FAULTS = "TSCDM"      # timeout, local stop / close / remove, every peer at once
 CORPUS = os.path.join(os.path.dirname(os.path.dirname(os.path.abspath(__file__))), "corpus", "C16")
